@@ -195,7 +195,7 @@ pub fn run(env: &mut Env) -> RunResult {
     let n = blocks.len() as u64;
     env.run_enum(SUB_BLOCK, n, true, move |i| blocks[i as usize].clone())?;
     env.run_enum(SUB_HB, 65_536, true, |i| Input::Nums(vec![i]))?;
-    let n = env.tier.sel(5_000, 90_000);
+    let n = env.tier.sel(40_000, 500_000);
     env.run_tapes(SUB_TAPE, n, 300)?;
     env.note(format!("exhaustive: all byte strings of length <= {} and every 2-byte header followed by {} short bodies", maxlen, SHORT_BODIES.len()));
     env.require("c03.corrupted", "reaches-a-body-decoder");
